@@ -598,7 +598,7 @@ func c12Anchor(c *Ctx, p *core.Prog, m *parserModel) {
 	for _, b := range fn.Blocks {
 		for _, in := range b.Instrs {
 			if call, ok := in.(*ssa.Call); ok {
-				if callee := call.Call.StaticCallee(); callee != nil && callee.Name() == "parseStatement" {
+				if isStatementParser(call.Call.StaticCallee(), 0) {
 					stmtCall = call
 				}
 			}
